@@ -79,9 +79,9 @@ Theorem C04_window_invariant_in_space :
 Proof.
   intros predict n w d kinds eps nspec ops p outs Hw Hd Hcap Hn Hlen Hpl H.
   destruct (run_in_space predict ops _ _ (game0 w) w d (QS_start n w d kinds eps nspec Hw Hd Hcap Hn Hlen Hpl)
-              (JI_start n w d kinds eps nspec ltac:(lia))) as [E|(p' & outs' & gs & g & E1 & _ & _ & HQS & _)]; [congruence|].
+              (JI_start n w d kinds eps nspec ltac:(lia)) Hw) as [E|(p' & outs' & gs & g & E1 & _ & _ & HQS & _)]; [congruence|].
   rewrite H in E1. injection E1 as <- <-.
-  split; [destruct (qs_frames _ _ _ _ HQS) as (_ & _ & X); exact X|].
+  split; [destruct (qs_frames _ _ _ _ HQS) as (_ & _ & X); rewrite (Z.max_r 1 w) in X by lia; exact X|].
   pose proof (qs_qs _ _ _ _ HQS) as HQ. pose proof (qs_last _ _ _ _ HQS) as HL.
   revert HQ HL. generalize (s_queues (ps_sync p)) as qs. generalize (ps_status p) as st. generalize gs as gs0.
   induction gs0 as [|g0 gs0 IH]; intros st qs HQ HL; inversion HL; subst; [constructor|].
@@ -107,7 +107,7 @@ Proof.
   destruct (sparse_run_in_space predict ops _ _ (game0 w) w d (QS_start_gen true n w d kinds eps nspec Hw Hd Hcap Hn Hlen Hpl)
               (JS_start n w d kinds eps nspec Hw) (SX_start n w d kinds eps nspec)) as [E|(p' & outs' & gs & g & E1 & _ & _ & HQS & _ & HSX)]; [congruence|].
   rewrite H in E1. injection E1 as <- <-.
-  destruct (qs_frames _ _ _ _ HQS) as (F1 & F2 & F3). destruct HSX as [X1 X2 X3 X4 X5].
+  destruct (qs_frames _ _ _ _ HQS) as (F1 & F2 & F3). rewrite (Z.max_r 1 w) in F3 by lia. destruct HSX as [X1 X2 X3 X4 X5].
   split; [exact F3|]. split.
   - pose proof (qs_qs _ _ _ _ HQS) as HQ. pose proof (qs_last _ _ _ _ HQS) as HL.
     revert HQ HL. generalize (s_queues (ps_sync p)) as qs. generalize (ps_status p) as st. generalize gs as gs0.
